@@ -52,4 +52,8 @@ def obligations(prog, src, tier, seed):
                 "bound": "3 inserts + 1 repeat with symbolic 64-bit keys, any non-zero counter (distinctness asserted for counters below usize::MAX-2)",
                 "doc": "equal keys <=> equal tokens, never the zero token, stable across lookups, counter wrap-around skips zero",
                 "run": run_tm, "check": check_tm, "crosscheck": False})
+    import os
+    import ob_sched
+    depth = int(os.environ.get("SCHED_DEPTH", "4" if tier == "quick" else "6"))
+    obs += ob_sched.obligations(prog, src, tier, seed, "C06", n_req=2, depth=depth, classes=('C06',), origins=(10, 20))
     return obs
